@@ -46,15 +46,22 @@ static_assert(queue_t::queue_representation_type::items_per_page == (ELEM == 1 ?
 extern "C" void vp_inv(int tid, int slot, int kind, unsigned val);      // operation invoked
 extern "C" void vp_res(int tid, int slot, int ok, unsigned val);        // operation responded (ok: pop success; val: popped value)
 
-enum { OP_NONE = 0, OP_PUSH = 1, OP_TRYPOP = 2, OP_POP = 3, OP_TRYPUSH = 4 };   // 3,4: concurrent_bounded_queue only (push/pop block there)
+enum { OP_NONE = 0, OP_PUSH = 1, OP_TRYPOP = 2, OP_POP = 3, OP_TRYPUSH = 4, OP_ABORT = 5 };   // 3,4,5: concurrent_bounded_queue only (push/pop block there)
+#ifndef FAULTS
+#define FAULTS 0
+#endif
+#ifndef ABORTS
+#define ABORTS 0
+#endif
+#define EXC (FAULTS || ABORTS)   // unit compiled with exceptions: a push / pop may throw (constructor fault / user_abort); nothing may escape a thread body
 
 static inline void do_op(queue_t* q, int tid, int slot, int op, unsigned val) {
   if (op == OP_PUSH) {
     elem_t e; e.v = val;
     vp_inv(tid, slot, OP_PUSH, val);
-#if FAULTS
+#if EXC
     bool ok = true;
-    try { q->push(e); } catch (...) { ok = false; }       // exceptions on: the push may fail (constructor fault); nothing may escape a thread body
+    try { q->push(e); } catch (...) { ok = false; }
     vp_res(tid, slot, ok, val);
 #else
     q->push(e);
@@ -70,14 +77,27 @@ static inline void do_op(queue_t* q, int tid, int slot, int op, unsigned val) {
   else if (op == OP_POP) {
     elem_t e; e.v = 0;
     vp_inv(tid, slot, OP_POP, 0);
+#if EXC
+    bool ok = true;
+    try { q->pop(e); } catch (...) { ok = false; }
+    vp_res(tid, slot, ok, ok ? e.v : 0);
+#else
     q->pop(e);
     vp_res(tid, slot, 1, e.v);
+#endif
   } else if (op == OP_TRYPUSH) {
     elem_t e; e.v = val;
     vp_inv(tid, slot, OP_TRYPUSH, val);
     bool ok = q->try_push(e);
     vp_res(tid, slot, ok, val);
   }
+#if ABORTS
+  else if (op == OP_ABORT) {
+    vp_inv(tid, slot, OP_ABORT, 0);
+    q->abort();
+    vp_res(tid, slot, 1, 0);
+  }
+#endif
 #endif
 }
 
